@@ -227,6 +227,27 @@ def inject(p, cls, r):
             return None
         ops.append({"op": "flow", "kind": "transition", "name": "uneq", "param": "1/2", "src": inside, "dst": outside[0]})
         return q, len(ops)
+    if cls == "flow_end_matches_nothing":
+        # a strata filter that no compartment of one end satisfies (a stratum of a stratification that end does not carry),
+        # while the other end matches: some sources against no destination, or the other way round
+        part = [i for i in sidx if ops[i]["comps"] != list(comps) and ops[i]["kind"] == "plain"]
+        if not part or any(o["op"] in ("req", "rebalance") for o in ops):
+            return None
+        i = part[0]
+        inside = ops[i]["comps"][0]
+        outside = [c for c in comps if c not in ops[i]["comps"]]
+        if not outside:
+            return None
+        filt = {ops[i]["name"]: ops[i]["strata"][0]}
+        o = {"op": "flow", "kind": r.choice(["transition", "transition", "infection_frequency"]), "name": "nomatch", "param": "1/2"}
+        if r.random() < 0.5:
+            o.update({"src": inside, "dst": outside[0], "df": filt})
+        else:
+            o.update({"src": outside[0], "dst": inside, "sf": filt})
+        if o["kind"] == "infection_frequency" and any(x["op"] == "flow" and x["kind"] == "infection_density" for x in ops):
+            o["kind"] = "transition"
+        ops.append(o)
+        return q, len(ops)
     if cls == "flow_count_expectation":
         if any(o["op"] in ("req", "rebalance") for o in ops):
             return None
@@ -293,7 +314,7 @@ CLASSES = ["end_before_start", "timestep_not_dividing", "timestep_not_dividing_l
            "output_for_unknown_flow", "adjusting_unknown_flow", "unknown_filter_strata", "unknown_output_source",
            "adjustment_omits_stratum", "infectiousness_omits_stratum", "split_omits_stratum", "split_negative", "split_not_one",
            "second_birth_flow", "second_age", "second_strain", "duplicate_stratification", "duplicate_universal_death",
-           "duplicate_output_name", "mixing_on_partial", "age_on_partial", "mixing_on_strain", "unequal_source_dest",
+           "duplicate_output_name", "mixing_on_partial", "age_on_partial", "mixing_on_strain", "unequal_source_dest", "flow_end_matches_nothing",
            "flow_count_expectation", "flow_count_zero", "after_finalize", "rate_not_a_number", "output_for_unmatched_compartment",
            "output_for_unmatched_flow", "unknown_flow_compartments_both"]
 
